@@ -164,11 +164,12 @@ def generate(g, tier):
     for _ in range(count(tier, 150, 1000)):
         d1 = r.choice(DIRS)
         main = f'{d1}/main.txt'
-        tgt = f'{r.choice(DIRS)}/t.txt'
+        tname = r.choice(['t', 't', 'T', '1t', 't-1', 't_x', 'tT', 'x' * 40, '\u00e9', 'data2', 'Start', 'txt'])
+        tgt = f'{r.choice(DIRS)}/{tname}.txt'
         good = import_name(main, tgt)
-        k = r.choice(['good', 'good', 'missing', 'trail', 'double', 'root', 'dir'])
-        arg = {'good': good, 'missing': good + 'x', 'trail': good + '.', 'double': good.replace('.t', '..t') if '.t' in good else 'a..b',
-               'root': '.' * 60 + 'etc', 'dir': import_name(main, tgt).rsplit('.', 1)[0] if '.' in good.lstrip('.') else good + 'q'}[k]
+        k = r.choice(['good', 'good', 'missing', 'trail', 'double', 'root', 'dir', 'case'])
+        arg = {'good': good, 'missing': good + 'x', 'trail': good + '.', 'double': good.replace('.' + tname, '..' + tname) if ('.' + tname) in good else 'a..b',
+               'case': good.swapcase() if good.swapcase() != good else good + 'Q', 'root': '.' * 60 + 'etc', 'dir': import_name(main, tgt).rsplit('.', 1)[0] if '.' in good.lstrip('.') else good + 'q'}[k]
         files = {main: f'STRING a\nSTART {arg}\nSTRING b', tgt: 'STRING target'}
         exp = ['ok', ['STRING a', 'STRING target', 'STRING b'], [], {}] if k == 'good' else ['err', 'path']
         cases.append(dict(op='compile_file', file=main, files=files, meta=dict(family='path-' + k, exp=exp)))
